@@ -517,6 +517,13 @@ func (rp recvProp) Generate(rng *rand.Rand, tier string, st *Stats) []Case {
 			}
 		}
 	}
+	// responses to the client's own pending request are stanzas like any other: received, so counted
+	if rp.id == "C09" {
+		for _, n0 := range []int{0, 3} {
+			mk("client", "sm1", n0, append(append(seq([]string{"msg"}), recvOp("iq", hx("pend"), false)), seq([]string{"pres", "r", "msg", "r"})...))
+			mkResume("sm1", n0, append(append(seq([]string{"r", "msg"}), recvOp("iq", hx("pend"), false), recvOp("iq", hx("pend"), false)), seq([]string{"r"})...))
+		}
+	}
 	// corpus (witnesses of F-09, F-05, F-12)
 	mk("client", "sm1", 0, seq([]string{"a", "r"}))
 	if rp.id == "C05" {
